@@ -48,7 +48,7 @@ const (
 	// engine defect owned by C07 (soft-deleted HNSW entry point: vectors added
 	// after the entry point was deleted are not linked to it and are never found);
 	// it surfaces here once the gateway has deleted a cache entry
-	c17FindEP = "hnsw-deleted-entry-point"
+	c17FindEP = "deleted-entrypoint" // same short name as C07 uses for this root cause
 )
 
 // c17ExclusionOn: set an entry to false once the defect has been repaired in
@@ -847,7 +847,7 @@ func (r *c17Runner) stepReq(i int, st c17Step) (violation string, stop bool) {
 	if len(d.ExpIn) == 1 {
 		// the gateway deletes the expired entry it met, asynchronously
 		old := d.ExpIn[0]
-		dl := time.Now().Add(5 * time.Second)
+		dl := time.Now().Add(2 * time.Second)
 		for time.Now().Before(dl) {
 			if _, err := r.eng.VGet(c17CacheIndex, old.ID); err != nil {
 				old.Present = false
